@@ -506,7 +506,10 @@ fn run_client(ctx: Arc<MemCtx>, client: usize, ops: Vec<Op>) -> Vec<Held> {
 pub async fn runtime_shutdown() {
     let mut spins = 0u32;
     loop {
+        // every task is flagged as cancelled before any of them runs again (a runtime shutdown is atomic)
+        crate::sched::freeze_others(true);
         Spawner::verif_abort_all();
+        crate::sched::freeze_others(false);
         if Spawner::verif_all_finished() {
             break;
         }
@@ -639,6 +642,10 @@ pub fn exec(case: &Case) {
     hist::ev("cache_drop", 0, 0, 0);
     *ctx.slot.lock().unwrap() = None;
     drop(cache);
+    if case.property != "C13" && case.property != "C16" {
+        // (C13 counts the Clear notifications of the final drop, C16 watches callbacks during it)
+        crate::run::phase_done();
+    }
     shuttle::future::block_on(runtime_shutdown());
     hist::ev("end", 0, 0, 0);
 }
